@@ -502,7 +502,10 @@ def execute(scn, want):
             # ---------------- C18.R3: a contract appended through the documented helper is live
             if want == "C18" and op in ("append", "late") and exc is None:
                 unit = step["unit"]
-                sid = sorted(s for s in m.world.contracts if s.startswith("%s/%s" % (unit, step["role"])))[-1]
+                cands_ = sorted(s for s in m.world.contracts if s.startswith("%s/%s" % (unit, step["role"])) and int(s.rsplit(step["role"], 1)[1]) >= 10)
+                if not cands_:
+                    continue  # the step was skipped (see Machine._late)
+                sid = cands_[-1]
                 m.n_probe += 1
                 if "." in unit:
                     cname, mem = unit.split(".")
